@@ -524,6 +524,18 @@ Proof.
   apply Nat.ltb_lt. exact Hl.
 Qed.
 
+(** ... and are valid edge values *)
+Lemma node_pre_b_child_ok : forall t lvl ch e, node_pre_b t lvl ch = true -> In e ch ->
+  edge_ok_b t e = true.
+Proof.
+  intros t lvl ch e H He. unfold Conc.node_pre_b in H.
+  rewrite !andb_true_iff in H. destruct H as [[[[_ _] H3] _] H5].
+  rewrite forallb_forall in H3. specialize (H3 e He). apply andb_true_iff in H3.
+  destruct H3 as [Ho _]. unfold Conc.edge_ok_b. rewrite Ho. simpl.
+  unfold ctags_ok_b in H5. destruct k; try reflexivity;
+    rewrite forallb_forall in H5; apply (H5 e He).
+Qed.
+
 Lemma node_pre_b_cnt_absent : forall t lvl ch id, node_pre_b t lvl ch = true -> cfind t id = None ->
   cnt id ch = 0.
 Proof.
